@@ -798,36 +798,73 @@ template <class V, class T, bool PORTABLE> struct Mach : MachBase
 
 // ------------------------------------------------------------------ flat_map / flat_set
 #include "C02/flat_ops.h"
-static FlatOps<igris::flat_map<int, int>, igris::flat_set<int>, int, int> g_flat;
+// hosted instantiations: comparator 0 = std::less (default), 1 = std::greater, 2 = by last digit (a strict
+// weak order whose equivalence is coarser than ==), 3 = std::greater<std::string> on the decimal text
+static FlatOps<igris::flat_map<int, int>, igris::flat_set<int>, int, int> g_flat0;
+static FlatOps<igris::flat_map<int, int, std::greater<int>>, igris::flat_set<int, std::greater<int>>, int, int> g_flat1;
+static FlatOps<igris::flat_map<int, int, ByLastDigit>, igris::flat_set<int, ByLastDigit>, int, int> g_flat2;
+static FlatOps<igris::flat_map<std::string, int, std::greater<std::string>>, igris::flat_set<std::string, std::greater<std::string>>, int, std::string, std::string> g_flat3;
+// comparator 4 = "dirdesc": the set is constructed from a comparator OBJECT, flat_set<int, Dir>(Dir(true)); the map
+// has no such constructor and keeps the default-constructed (ascending) Dir
+struct FlatOpsDir : FlatOps<igris::flat_map<int, int, Dir>, igris::flat_set<int, Dir>, int, int>
+{
+    void reset() override
+    {
+        fm = igris::flat_map<int, int, Dir>();
+        fs = igris::flat_set<int, Dir>(Dir(true));
+    }
+};
+static FlatOpsDir g_flat4;
+static FlatBase *g_flats[5] = {&g_flat0, &g_flat1, &g_flat2, &g_flat3, &g_flat4};
+static FlatBase *g_flat = &g_flat0;
+static int cmp_index(const std::string &name)
+{
+    if (name == "" || name == "less") return 0;
+    if (name == "greater") return 1;
+    if (name == "lastdigit") return 2;
+    if (name == "sgreater") return 3;
+    if (name == "dirdesc") return 4;
+    return -1;
+}
 
 // oracle: the same operation on real std::map / std::set, printed the same way
-struct FlatMirror
+struct MirrorBase
 {
-    std::map<int, int> mm;
-    std::set<int> ms;
-    void reset()
+    virtual ~MirrorBase() {}
+    virtual void reset() = 0;
+    virtual std::string step(const std::vector<std::string> &w, out &o) = 0;
+};
+// the same comparator type is handed to std::map / std::set
+template <class K, class Cmp> struct FlatMirror : MirrorBase
+{
+    std::map<K, int, Cmp> mm;
+    std::set<K, Cmp> ms;
+    void reset() override
     {
-        mm.clear();
-        ms.clear();
+        mm = std::map<K, int, Cmp>();
+        ms = make_set((Cmp *)nullptr);
     }
-    std::string step(const std::vector<std::string> &w, out &o)
+    template <class C> static std::set<K, C> make_set(C *) { return std::set<K, C>(); }
+    static std::set<K, Dir> make_set(Dir *) { return std::set<K, Dir>(Dir(true)); }
+    std::string step(const std::vector<std::string> &w, out &o) override
     {
-        auto I = [&](size_t k) { return k < w.size() ? atoi(w[k].c_str()) : 0; };
+        auto I = [&](size_t k) { return MkKey<K>::of(k < w.size() ? atoi(w[k].c_str()) : 0); };
+        auto V = [&](size_t k) { return k < w.size() ? atoi(w[k].c_str()) : 0; };
         const std::string &op = w[0];
         std::string exp = "-";
         if (op == "mset")
-            mm[I(1)] = I(2);
+            mm[I(1)] = V(2);
         else if (op == "mget")
             exp = std::to_string(mm[I(1)]);
         else if (op == "mins")
         {
-            auto p = mm.insert({I(1), I(2)});
-            exp = std::to_string(p.first->first) + ">" + std::to_string(p.first->second);
+            auto p = mm.insert({I(1), V(2)});
+            exp = std::to_string(unbox(p.first->first)) + ">" + std::to_string(p.first->second);
             o.tag(p.second ? "ins-new" : "ins-dup");
         }
         else if (op == "mempl")
         {
-            auto p = mm.emplace(I(1), I(2));
+            auto p = mm.emplace(I(1), V(2));
             exp = std::to_string(p.second) + "," + std::to_string(p.first->second);
         }
         else if (op == "mfind")
@@ -851,7 +888,7 @@ struct FlatMirror
             mm.clear();
             size_t n = std::min<size_t>((w.size() - 1) / 2, 4);
             for (size_t k = 0; k < n; k++)
-                mm.insert({I(1 + 2 * k), I(2 + 2 * k)});
+                mm.insert({I(1 + 2 * k), V(2 + 2 * k)});
             o.tag(mm.size() != n ? "init-dup" : "init");
         }
         else if (op == "mcopy")
@@ -862,9 +899,27 @@ struct FlatMirror
             exp = std::to_string(ms.count(I(1)));
         else if (op == "sclear")
             ms.clear();
+        else if (op == "msize")
+            exp = std::to_string(mm.size());
+        else if (op == "ssize")
+            exp = std::to_string(ms.size());
+        else if (op == "siter")
+        {
+            exp = "";
+            for (const K &k : ms)
+                exp += (exp.empty() ? "" : ",") + std::to_string(unbox(k));
+            if (exp.empty())
+                exp = "-";
+            o.tag(ms.size() >= 8 ? "set-iter-long" : "set-iter");
+        }
         std::string s = exp + " m=" + std::to_string(mm.size()) + ":";
         bool first = true;
+        // the map is printed in the order of the integer keys (flat_map's own order is not part of C02)
+        std::vector<std::pair<int, int>> all;
         for (auto &kv : mm)
+            all.push_back({unbox(kv.first), kv.second});
+        std::stable_sort(all.begin(), all.end(), [](const std::pair<int, int> &x, const std::pair<int, int> &y) { return x.first < y.first; });
+        for (auto &kv : all)
         {
             s += (first ? "" : ",") + std::to_string(kv.first) + ">" + std::to_string(kv.second);
             first = false;
@@ -873,9 +928,9 @@ struct FlatMirror
             s += "-";
         s += " s=" + std::to_string(ms.size()) + ":";
         first = true;
-        for (int k : ms)
+        for (const K &k : ms)
         {
-            s += (first ? "" : ",") + std::to_string(k);
+            s += (first ? "" : ",") + std::to_string(unbox(k));
             first = false;
         }
         if (first)
@@ -883,7 +938,13 @@ struct FlatMirror
         return s;
     }
 };
-static FlatMirror g_mirror;
+static FlatMirror<int, std::less<int>> g_mirror0;
+static FlatMirror<int, std::greater<int>> g_mirror1;
+static FlatMirror<int, ByLastDigit> g_mirror2;
+static FlatMirror<std::string, std::greater<std::string>> g_mirror3;
+static FlatMirror<int, Dir> g_mirror4;
+static MirrorBase *g_mirrors[5] = {&g_mirror0, &g_mirror1, &g_mirror2, &g_mirror3, &g_mirror4};
+static MirrorBase *g_mirror = &g_mirror0;
 
 // ------------------------------------------------------------------ dispatch
 using VI = igris::vector<int, TA<int>>;
@@ -926,8 +987,16 @@ static void run_op(const std::vector<std::string> &w, const std::string &line, o
         else if (kind == "trk" && var == "v") { g_mach = new Mach<VT, Tracked, false>(); g_mode = 1; }
         else if (kind == "int" && var == "p") { g_mach = new Mach<PI, int, true>(); g_mode = 1; }
         else if (kind == "trk" && var == "p") { g_mach = new Mach<PT, Tracked, true>(); g_mode = 1; }
-        else if (kind == "flat" && var == "h") { g_flat.reset(); g_mirror.reset(); g_mode = 2; }
-        else if (kind == "flat" && var == "c") { c02_compat("reset"); g_mirror.reset(); g_mode = 3; }
+        else if (kind == "flat" && (var == "h" || var == "c") && cmp_index(w.size() > 3 ? w[3] : "") >= 0)
+        {
+            // `reset flat h|c [less|greater|lastdigit|sgreater]`
+            int ci = cmp_index(w.size() > 3 ? w[3] : "");
+            g_mirror = g_mirrors[ci];
+            g_mirror->reset();
+            if (var == "h") { g_flat = g_flats[ci]; g_flat->step("reset"); g_mode = 2; }
+            else if (ci == 4) { o.result = "bad-op"; o.fail("dirdesc is hosted only (compat/std/set declares no constructors)"); return; }
+            else { c02_compat(line); g_mode = 3; }
+        }
         else { o.result = "bad-op"; o.fail("unknown reset"); }
         return;
     }
@@ -935,8 +1004,8 @@ static void run_op(const std::vector<std::string> &w, const std::string &line, o
         g_mach->step(w, o);
     else if (g_mode == 2 || g_mode == 3)
     {
-        o.result = g_mode == 2 ? g_flat.step(line) : c02_compat(line);
-        std::string exp = g_mirror.step(w, o);
+        o.result = g_mode == 2 ? g_flat->step(line) : c02_compat(line);
+        std::string exp = g_mirror->step(w, o);
         if (o.result != exp)
             o.fail("std::map/std::set answer '" + exp + "'");
     }
@@ -1201,14 +1270,22 @@ struct Gen
     }
 
     // ---------------- flat_map / flat_set
-    void flat(bool compat, int len, int keys)
+    // cmp: "" (std::less), "greater", "lastdigit", "sgreater"
+    std::string flat_reset(bool compat, const std::string &cmp)
     {
-        emit(std::string("reset flat ") + (compat ? "c" : "h"));
+        return std::string("reset flat ") + (compat ? "c" : "h") + (cmp.empty() ? "" : " " + cmp);
+    }
+    void flat(bool compat, int len, int keys, int off = 0, const std::string &cmp = "")
+    {
+        emit(flat_reset(compat, cmp));
         for (int i = 0; i < len; i++)
         {
-            int k = (int)R.range(0, keys), v = (int)R.range(0, 99);
-            switch (R.below(14))
+            int k = (int)R.range(0, keys) - off, v = (int)R.range(0, 99);
+            switch (R.below(17))
             {
+            case 13: emit(R.chance(50) ? "msize" : "ssize"); break;
+            case 14: emit("siter"); break;
+            case 15: emit("sins " + S(k)); break;
             case 0: emit("mset " + S(k) + " " + S(v)); break;
             case 1: emit("mget " + S(k)); break;
             case 2: case 3: emit("mins " + S(k) + " " + S(v)); break;
@@ -1223,14 +1300,16 @@ struct Gen
             default:
                 if (R.chance(15))
                 {
-                    // duplicate-free initializer list (duplicates: see flat_init_dups)
+                    // initializer list, with duplicate keys in half of the cases (all 27 three-entry
+                    // patterns: see flat_init_dups)
                     int n = (int)R.range(0, 4);
+                    bool dups = R.chance(50);
                     std::vector<int> ks;
                     std::string s = "minit";
                     for (int j = 0; j < n; j++)
                     {
                         int kk;
-                        do kk = (int)R.range(0, keys + 4); while (std::find(ks.begin(), ks.end(), kk) != ks.end());
+                        do kk = (int)R.range(0, dups ? 2 : keys + 4) - off; while (!dups && std::find(ks.begin(), ks.end(), kk) != ks.end());
                         ks.push_back(kk);
                         s += " " + S(kk) + " " + S((int)R.range(0, 99));
                     }
@@ -1241,14 +1320,21 @@ struct Gen
             }
         }
     }
-    void flat_init_dups(bool compat)
+    // step = 1: keys 0,1,2; step = 10 (by-last-digit comparator): 0,10,20 are ONE key, probed as 0,1,2 / 10 / 20
+    void flat_init_dups(bool compat, const std::string &cmp = "", int step = 1)
     {
         for (int a = 0; a < 3; a++)
             for (int b = 0; b < 3; b++)
                 for (int c = 0; c < 3; c++)
                 {
-                    emit(std::string("reset flat ") + (compat ? "c" : "h"));
-                    emit("minit " + S(a) + " 10 " + S(b) + " 20 " + S(c) + " 30");
+                    emit(flat_reset(compat, cmp));
+                    emit("minit " + S(a * step) + " 10 " + S(b * step) + " 20 " + S(c * step) + " 30");
+                    if (step != 1)
+                        for (int k = 0; k < 3; k++)
+                        {
+                            emit("mcount " + S(k * step));
+                            emit("mfind " + S(k * step + 10));
+                        }
                     for (int k = 0; k < 3; k++)
                     {
                         emit("mcount " + S(k));
@@ -1260,12 +1346,12 @@ struct Gen
                 }
     }
     // every insertion order of up to 4 distinct keys (set + map insert)
-    void flat_orders(bool compat)
+    void flat_orders(bool compat, const std::string &cmp = "")
     {
         std::vector<int> p{1, 2, 3, 4};
         do
         {
-            emit(std::string("reset flat ") + (compat ? "c" : "h"));
+            emit(flat_reset(compat, cmp));
             for (int k : p)
             {
                 emit("sins " + S(k));
@@ -1273,6 +1359,18 @@ struct Gen
             }
             emit("sins " + S(p[1]));
             emit("mins " + S(p[2]) + " 77");
+            if (!cmp.empty())
+            {
+                // keys that are equivalent to a stored one under the by-last-digit order, new ones under the others
+                emit("sins " + S(p[0] + 10));
+                emit("mins " + S(p[3] + 10) + " 88");
+                emit("siter");
+                emit("ssize");
+                emit("msize");
+                emit("scount " + S(p[2] + 20));
+                emit("mcount " + S(p[1] + 20));
+                emit("mat " + S(p[1] + 20));
+            }
             for (int k = 0; k <= 5; k++)
             {
                 emit("scount " + S(k));
@@ -1320,6 +1418,23 @@ static void gen(rng &r, const std::string &tier)
         g.flat_orders(c);
         for (int i = 0; i < (th ? 600 : 40); i++)
             g.flat(c, (int)r.range(20, 80), r.chance(50) ? 5 : 12);
+        // long bisections: up to 41 keys (negative ones included) in the set / the map
+        for (int i = 0; i < (th ? 150 : 10); i++)
+            g.flat(c, (int)r.range(80, 160), 40, 20);
+        // non-default comparators (handed to flat_map / flat_set / the compat std::map / std::set and to the
+        // std::map / std::set of the oracle): descending, equivalence classes by last digit, descending text
+        for (const char *cmp : {"greater", "lastdigit", "sgreater", "dirdesc"})
+        {
+            if (c && std::string(cmp) == "dirdesc")
+                continue; // hosted only
+            g.flat_init_dups(c, cmp, std::string(cmp) == "lastdigit" ? 10 : 1);
+            g.flat_orders(c, cmp);
+            for (int i = 0; i < (th ? 200 : 12); i++)
+            {
+                int keys = r.chance(50) ? 12 : 40;
+                g.flat(c, (int)r.range(30, 100), keys, r.chance(50) ? keys / 2 : 0, cmp);
+            }
+        }
     }
 }
 
